@@ -195,7 +195,13 @@ def decode_case(case):
         f1 = os.path.join(tmp, 'desc.json')
         f0 = os.path.join(tmp, 'other.json')
         with open(f1, 'w') as f:
-            json.dump(build_desc(case), f)
+            d1 = build_desc(case)
+            if case.get('key_order') == 'sorted':
+                json.dump(d1, f, sort_keys=True)          # "agents" before "model" before "systems" in the file
+            elif case.get('key_order') == 'reversed':
+                json.dump(dict(reversed(list(d1.items()))), f)
+            else:
+                json.dump(d1, f)
         other = {'leg': 'x', 'prios': [3], 'sizes': [1], 'hooks': {'pre_model': True, 'post_s0': True, 'pre_g0': True}}
         with open(f0, 'w') as f:
             json.dump(build_desc(other), f)
@@ -205,6 +211,19 @@ def decode_case(case):
         for nth, (path, c) in enumerate(((f1, case), (f0, other), (f1, case))):
             del LOG[:]
             v2 = bool(case.get('rebind')) and nth == 2
+            if nth == 2 and case.get('imposters'):
+                # classes with the same name and module as the listed ones, created later (a nested class, a class
+                # factory, a test double) but NOT bound to the module attribute the description names
+                imposters = [type('FxAgent', (FxAgent,), {'__module__': MOD, 'decode': staticmethod(_bad_decode)}),
+                             type('FxSystem', (FxSystem,), {'__module__': MOD, 'decode': staticmethod(_bad_decode)}),
+                             type('FxModel', (FxModel,), {'__module__': MOD, 'decode': staticmethod(_bad_decode)})]
+            if nth == 2 and case.get('rewrite'):
+                # the SAME path now holds the other description, with the file's old modification time
+                st = os.stat(f1)
+                with open(f0) as src, open(f1, 'w') as dst:
+                    dst.write(src.read())
+                os.utime(f1, ns=(st.st_atime_ns, st.st_mtime_ns))
+                c = other
             if v2:      # the hook function is re-defined between two decodes (same module object, same name)
                 me.fx_hook = fx_hook_v2
                 main.fx_hook = fx_hook_v2
@@ -223,12 +242,14 @@ def decode_case(case):
             check_model(m, c)
             logs.append(_strip(log))
             models.append(m)
-        if logs[0] != logs[2] and not case.get('rebind'):
+        if logs[0] != logs[2] and not case.get('rebind') and not case.get('rewrite'):
             raise Violation('decoding the same file a second time gave a different lifecycle', expected=logs[0],
                             observed=logs[2])
         if models[0] is models[2] or models[0] is models[1]:
             raise Violation('two decodes returned the same model object')
         check_model(models[0], case)       # the first model is untouched by the later decodes
+        if case.get('rewrite'):
+            return json.dumps(logs[2])
         # one timestep: systems run in C01 order with their declared windows
         del LOG[:]
         models[2].execute()
@@ -243,6 +264,11 @@ def decode_case(case):
     finally:
         me.fx_hook = _FX_HOOK_V1
         shutil.rmtree(tmp, ignore_errors=True)
+
+
+def _bad_decode(params):
+    LOG.append(['imposter'])
+    raise AssertionError('a class that is not the one named in the description was asked to decode')
 
 
 def check_model(m, case):
@@ -332,6 +358,10 @@ def cases(tier):
             out.append(dict(base, rebind=True, module_key=False))
             for at in hook_names(ns, ng):
                 out.append(dict(base, nested_at=at))
+            out.append(dict(base, key_order='sorted'))
+            out.append(dict(base, key_order='reversed'))
+            out.append(dict(base, imposters=True))
+            out.append(dict(base, rewrite=True))
     return out
 
 
